@@ -366,7 +366,14 @@ fn body(ch: &Chooser, cfg: &Cfg) -> Outcome {
 
     // ---- observations ------------------------------------------------------------------------------
     ch.obs(b"accepted");
-    ch.obs_hash((&raw.bin, raw.n_cigar_op, raw.l_seq, raw.l_read_name, raw.block_size, &eager[ix]));
+    if shape == "small" {
+        ch.obs_hash((&raw.bin, raw.n_cigar_op, raw.l_seq, raw.l_read_name, raw.block_size, &eager[ix]));
+    } else {
+        // long records: the (already compared) bulk is summarised by its lengths
+        let e = &eager[ix];
+        ch.obs_hash((&raw.bin, raw.n_cigar_op, raw.l_seq, raw.l_read_name, raw.block_size));
+        ch.obs_hash((&e.name, e.flags, e.rid, e.pos, e.mapq, e.cigar.len(), e.mrid, e.mpos, e.tlen, e.seq.len(), e.qual.len(), &e.aux));
+    }
     match shape {
         "ops>65535" => ch.tag("record: >65535 CIGAR ops round-tripped"),
         "ops=65535" => ch.tag("record: exactly 65535 CIGAR ops"),
@@ -418,11 +425,14 @@ fn main() {
                 alphabet: Alphabet::bam(false, true),
                 bases: bases(),
                 dicts: vec![3, 0],
-                files: vec![FileShape::Raw1, FileShape::Bgzf3],
-                files_free: true,
-                headers,
+                files: vec![FileShape::Raw1, FileShape::Raw3],
+                files_free: false, // the 3-record framing counts as one of the k deviations in the quick tier
+                headers: headers.clone(),
             };
             ctx.harness(Config::new("bam_record_k2", 2), |ch| body(ch, &cfg));
+            // the same grammar through the BGZF-wrapping constructor (the container itself is C01's subject)
+            let cfg = Cfg { files: vec![FileShape::Bgzf3], files_free: true, ..cfg };
+            ctx.harness(Config::new("bam_record_bgzf_k1", 1), |ch| body(ch, &cfg));
         } else {
             let light = Cfg {
                 alphabet: Alphabet::bam(true, false),
@@ -437,7 +447,7 @@ fn main() {
                 alphabet: Alphabet::bam(true, true),
                 bases: bases(),
                 dicts: vec![3, 1, 0],
-                files: vec![FileShape::Raw1, FileShape::Bgzf3, FileShape::Raw3],
+                files: vec![FileShape::Raw1, FileShape::Raw3, FileShape::Bgzf3],
                 files_free: true,
                 headers,
             };
